@@ -90,6 +90,84 @@ func runC07(c *Ctx) {
 			found[kind] = true
 		}
 	}
+	// validation delegated to helpers of the package: a helper called before any output whose error result is
+	// returned at once; its own refusing branches count
+	eachInstr(fn, func(in ssa.Instruction) {
+		call, isCall := in.(*ssa.Call)
+		if !isCall {
+			return
+		}
+		h := call.Call.StaticCallee()
+		if h == nil || h.Blocks == nil || funcPkgPath(h) != funcPkgPath(fn) || afterWrite[in.Block()] || len(allWriteSites(h)) > 0 {
+			return
+		}
+		nres := h.Signature.Results().Len()
+		if nres == 0 || !isErrorType(h.Signature.Results().At(nres-1).Type()) {
+			return
+		}
+		// the error is tested and returned by RenderTo
+		var errV ssa.Value = call
+		if nres > 1 {
+			errV = nil
+			for _, rr := range referrersOf(call) {
+				if ex, ok := rr.(*ssa.Extract); ok && ex.Index == nres-1 {
+					errV = ex
+				}
+			}
+		}
+		propagated := false
+		if errV != nil {
+			for _, b := range fn.Blocks {
+				iff, ok := b.Instrs[len(b.Instrs)-1].(*ssa.If)
+				if !ok {
+					continue
+				}
+				if e, nn, isT := nilTest(iff.Cond); isT && e == errV {
+					succ := b.Succs[0]
+					if nn == 1 {
+						succ = b.Succs[1]
+					}
+					for _, x := range succ.Instrs {
+						if ret, isRet := x.(*ssa.Return); isRet && derivedFrom(results(ret)[len(ret.Results)-1], errV, 0) {
+							propagated = true
+						}
+					}
+				}
+			}
+		}
+		if !propagated {
+			return
+		}
+		ph := c.Idx().proverFor(h)
+		for _, b := range h.Blocks {
+			iff, ok := b.Instrs[len(b.Instrs)-1].(*ssa.If)
+			if !ok {
+				continue
+			}
+			for _, val := range []bool{true, false} {
+				succ := b.Succs[0]
+				if !val {
+					succ = b.Succs[1]
+				}
+				var ret *ssa.Return
+				for _, x := range succ.Instrs {
+					if rr, isRet := x.(*ssa.Return); isRet {
+						ret = rr
+					}
+				}
+				if ret == nil || !edgeControls(b, succ, succ) || !definitelyNonNilErr(results(ret)[len(ret.Results)-1]) {
+					continue
+				}
+				kind := classifyJSONRefusal(ph, iff.Cond, val)
+				if kind == "" {
+					continue
+				}
+				nref++
+				r.Check("R07.2", FuncName(h), "refusal ("+kind+") happens before any output", ret.Pos(), true, "")
+				found[kind] = true
+			}
+		}
+	})
 	for _, k := range []string{"no columns", "no headers", "too few headers", "empty header", "duplicate header", "non-boolean skipable"} {
 		r.Check("R07.2", FuncName(fn), "refuses: "+k, fn.Pos(), found[k], "this documented error condition has no refusing branch")
 	}
@@ -193,7 +271,7 @@ func classifyJSONRefusal(p *prover, cond ssa.Value, val bool) string {
 			}
 		}
 	case *ssa.Extract:
-		if x.Index != 1 {
+		if _, isCall := x.Tuple.(*ssa.Call); x.Index != 1 && !isCall {
 			return ""
 		}
 		switch tup := x.Tuple.(type) {
@@ -203,6 +281,11 @@ func classifyJSONRefusal(p *prover, cond ssa.Value, val bool) string {
 			}
 		case *ssa.TypeAssert:
 			if b, ok := tup.AssertedType.Underlying().(*types.Basic); ok && b.Kind() == types.Bool && !val {
+				return "non-boolean skipable"
+			}
+		case *ssa.Call:
+			// (value, ok) from a helper whose ok is that of an assertion to bool (or constant true)
+			if !val && boolAssertOKResult(tup.Call.StaticCallee(), x.Index, 0) {
 				return "non-boolean skipable"
 			}
 		}
@@ -334,8 +417,18 @@ func c07Object(c *Ctx, emit *ssa.Function) {
 			}
 			continue
 		}
-		if s, ok := constString(a); ok {
-			closers = append(closers, s)
+		for _, cv := range phiClosure(a) {
+			if s, ok := constString(cv); ok {
+				dup := false
+				for _, have := range closers {
+					if have == s {
+						dup = true
+					}
+				}
+				if !dup {
+					closers = append(closers, s)
+				}
+			}
 		}
 	}
 	if sepWrite == nil || keyW == nil || valW == nil {
@@ -353,7 +446,11 @@ func c07Object(c *Ctx, emit *ssa.Function) {
 	r.Check("R07.4", name, "fields are opened with '{' and separated with ', '", sepWrite.Call.Pos(), len(vals) == 2 && vals["{"] && vals[", "], fmt.Sprint(vals))
 	r.Check("R07.4", name, "the key is written before its value, for the same column", keyW.Pos(), instrDominates(sepWrite.Call.(ssa.Instruction), keyW) && instrDominates(keyW, valW) && keyIdx != nil && keyIdx == valIdx, "")
 	okClose := len(closers) == 2 && ((closers[0] == "{}" && closers[1] == "}") || (closers[0] == "}" && closers[1] == "{}"))
-	r.Check("R07.4", name, "an object with no emitted field is '{}', any other is closed with '}'", emit.Pos(), okClose, fmt.Sprint(closers))
+	if len(closers) == 0 {
+		r.Note("shape-unrecognised R07.4: the closing write of an object is not a constant; the '{}' / '}' rule is not evaluated")
+	} else {
+		r.Check("R07.4", name, "an object with no emitted field is '{}', any other is closed with '}'", emit.Pos(), okClose, fmt.Sprint(closers))
+	}
 	// skip rule: the only conditions that skip a field are skipable[i] and cells[i].Empty()
 	skipOK := true
 	why := ""
@@ -432,6 +529,9 @@ func marshalledCellIndex(v ssa.Value, depth int) ssa.Value {
 	}
 	for pi, a := range call.Call.Args {
 		_, idx := sectionOfAny(a)
+		if ia, isIA := a.(*ssa.IndexAddr); isIA && idx == nil {
+			idx = ia.Index // &cells[i] handed to the helper
+		}
 		if idx == nil {
 			continue
 		}
@@ -480,4 +580,37 @@ func derivesFrom(v, src ssa.Value, depth int) bool {
 		}
 	}
 	return false
+}
+
+// boolAssertOKResult: result idx of f is, on every return, the ok of a comma-ok assertion to bool, or constant true,
+// with at least one return of the first kind.
+func boolAssertOKResult(f *ssa.Function, idx int, depth int) bool {
+	if f == nil || f.Blocks == nil || !inModule(f) || depth > 2 {
+		return false
+	}
+	some := false
+	for _, ret := range returnsOf(f) {
+		rv := results(ret)
+		if idx >= len(rv) {
+			return false
+		}
+		for _, v := range phiClosure(rv[idx]) {
+			if k, ok := constBool(v); ok && k {
+				continue
+			}
+			ex, ok := v.(*ssa.Extract)
+			if !ok || ex.Index != 1 {
+				return false
+			}
+			ta, ok := ex.Tuple.(*ssa.TypeAssert)
+			if !ok {
+				return false
+			}
+			if b, isB := ta.AssertedType.Underlying().(*types.Basic); !isB || b.Kind() != types.Bool {
+				return false
+			}
+			some = true
+		}
+	}
+	return some
 }
